@@ -744,6 +744,7 @@ func (s *Shard) validateSeriesAndFields(points []models.Point) ([]models.Point, 
 		j++
 
 		// Create any fields that are missing.
+		conflict := false
 		iter.Reset()
 		for iter.Next() {
 			fieldKey := iter.FieldKey()
@@ -753,11 +754,23 @@ func (s *Shard) validateSeriesAndFields(points []models.Point) ([]models.Point, 
 				continue
 			}
 
-			if mf.FieldBytes(fieldKey) != nil {
+			dataType := dataTypeFromModelsFieldType(iter.Type())
+			if f := mf.FieldBytes(fieldKey); f != nil {
+				// The field may have been created by a concurrent write after the
+				// validator looked at this point: its type has to be checked again,
+				// or a value of another type is stored in the field.
+				if dataType != influxql.Unknown && f.Type != dataType {
+					if reason == "" {
+						reason = fmt.Sprintf(
+							"%s: input field \"%s\" on measurement \"%s\" is type %s, already exists as type %s",
+							ErrFieldTypeConflict, fieldKey, name, dataType, f.Type)
+					}
+					conflict = true
+					break
+				}
 				continue
 			}
 
-			dataType := dataTypeFromModelsFieldType(iter.Type())
 			if dataType == influxql.Unknown {
 				continue
 			}
@@ -780,6 +793,13 @@ func (s *Shard) validateSeriesAndFields(points []models.Point) ([]models.Point, 
 					Type: dataType,
 				},
 			})
+		}
+
+		if conflict {
+			// Drop the point that was just kept.
+			j--
+			dropped++
+			atomic.AddInt64(&s.stats.WritePointsDropped, 1)
 		}
 	}
 
